@@ -119,7 +119,15 @@ def id_typestate(prog, rep, fi, loop):
             v = n.target.id
             body = [s for s in n.body if not (isinstance(s, ast.Expr) and isinstance(s.value, ast.Constant))]
             if len(body) == 1 and isinstance(body[0], ast.Assign) and norm(body[0].targets[0]) in (f"{v}.id", f"{v}['id']") and isinstance(body[0].value, ast.Constant) and body[0].value.value is None:
-                if n.lineno < sink.lineno and (not d or n.lineno > d[0].lineno):
+                # order by position in the bucket loop's body (expanded helpers keep the line numbers of their own definition)
+                def _pos(x):
+                    for i_, b_ in enumerate(loop.body):
+                        if b_ is x or any(x is y for y in ast.walk(b_)):
+                            return i_
+                    return None
+
+                pn, ps, pd = _pos(n), _pos(sink), (_pos(d[0]) if d else -1)
+                if pn is not None and ps is not None and pd is not None and pd < pn < ps:
                     cleared = True
     if cleared:
         tag = "NO-ID"
@@ -504,6 +512,37 @@ def trigger(prog, rep):
     dd = prog.func("detect_db_files")
     t = norm(dd.node)
     okd = "filename.split('.')[0] == datastore_name" in t and "filename.split('.')[1] == f'v{version}'" in t
+    if not okd:
+        # by role: a file is kept only if part 0 of its name (split at '.') equals the name asked for and part 1 equals
+        # 'v<version>': `==` as a condition of a comprehension over the listing, or `!=` guarding a `continue` in a loop over it
+        from ..trace import deep as _deep2
+
+        found_ = set()
+        for cmp_ in [x for x in walk_with_nested_exprs(dd.node) if isinstance(x, ast.Compare) and len(x.ops) == 1 and isinstance(x.ops[0], (ast.Eq, ast.NotEq))]:
+            for a_, b_ in ((cmp_.left, cmp_.comparators[0]), (cmp_.comparators[0], cmp_.left)):
+                ta_ = norm(_deep2(a_, dd))
+                tb_ = norm(b_)
+                m_ = None
+                for i_ in (0, 1):
+                    if ta_.endswith(f".split('.')[{i_}]"):
+                        m_ = i_
+                if m_ is None:
+                    continue
+                want_ = "datastore_name" if m_ == 0 else "f'v{version}'"
+                if tb_ != want_:
+                    continue
+                keep = isinstance(cmp_.ops[0], ast.Eq)
+                # where the comparison stands
+                p_, ok_place = parent(cmp_), False
+                while p_ is not None and not isinstance(p_, (ast.comprehension, ast.If, ast.FunctionDef)):
+                    p_ = parent(p_)
+                if isinstance(p_, ast.comprehension) and keep:
+                    ok_place = True
+                if isinstance(p_, ast.If) and not keep and len(p_.body) == 1 and isinstance(p_.body[0], ast.Continue):
+                    ok_place = True
+                if ok_place:
+                    found_.add(m_)
+        okd = found_ == {0, 1}
     rep.check(okd, "TRIGGER", dd.short, "file filter", "split('.')[0] == name and split('.')[1] == v<version>", "detect_db_files no longer filters by name and version part", dd.loc())
     # sid test and the call
     mcalls = [x for x in prog.all_calls(cm) if norm(x.func) == "peewee_v2_to_sqlite_v1"]
@@ -590,6 +629,9 @@ def check(prog, rep):
     from ..rules_store import instance_state
 
     instance_state(prog, rep)
+    from ..rules_store import ddl_facts
+
+    ddl_facts(prog, rep)
     # "same instant, duration and data": what the legacy store decodes and the new store encodes (tables and scale constants)
     codec_sqlite(prog, rep)
     codec_peewee(prog, rep)
